@@ -456,4 +456,4 @@ def run(ctx):
     ctx.include("C01.8", "discharges the lifting panics: desugaring forgets no position and eliminates / rejects the node kinds the lifting cannot handle (shared with C18.1/C18.2/C18.3)", c18.rule_flow, c18.rule_elimination, c18.rule_contains)
     ctx.include("C01.13", "discharges the indexing and unwraps of the anonymous-component expansion: the argument list is matched against the declared inputs by the same list the expansion walks (shared with C18.4)", c18.rule_binding)
     ctx.include("C01.9", "discharges Meta::get_file_id and the renderer's label assertion: every node gets its file id, spans are ordered token boundaries (shared with C04.4/C04.5)", c04.rule_grammar_spans, c04.rule_fill)
-    ctx.include("C01.10", "discharges indexing of template arguments: an instantiation is inspected only after its name and arity were tested (shared with C11.3)", lambda c: c11.rule_thresholds(c, c11.rule_primes(c) or {}), only=["name-and-arity", "update_components", "size-is-first-argument"])
+    ctx.include("C01.10", "discharges indexing of template arguments: an instantiation is inspected only after its name and arity were tested (shared with C11.3)", lambda c: c11.rule_thresholds(c, c11.rule_primes(c) or {}), only=["name-and-arity", "update_components", "size-is-first-argument", "table/no-panic", "table/nothing-else-flagged"])
